@@ -129,7 +129,16 @@ fn call_group(c: &mut Child, seed: u64) {
                 0 => *rng.pick(&[0u32, 2, 0xfffffe, 0x416900, 0xffbf20, 0x5ffffe, 0x000100]),
                 _ => rng.u32() & 0xfffffe,
             };
-            let argp = if rng.chance(1, 2) { 0xffe900 + 4 * rng.below(64) as u32 } else { 0x430000 + 4 * rng.below(1024) as u32 };
+            // argument block anywhere in RAM / DRAM, including on top of the MES per-vector save area
+            // (H'FFFD10 + 4 x vector) that set_handler itself writes
+            let argp = match rng.below(6) {
+                0 => 0xfffd10u32.wrapping_add(4 * (vector & 63)).wrapping_sub(4 * rng.below(3) as u32),
+                1 => 0xfffd00 + 4 * rng.below(72) as u32,
+                2 => 0xffc200 + 4 * rng.below(0xf00) as u32,
+                3 => 0x430000 + 4 * rng.below(0x70000) as u32,
+                4 => *rng.pick(&[0xffff14u32, 0x5ffff8, 0xffbf20 + 0x100, 0x400000]),
+                _ => 0xffe900 + 4 * rng.below(64) as u32,
+            };
             poke32(&mut rig.cpu, argp, vector);
             poke32(&mut rig.cpu, argp + 4, addr);
             er[0] = 113;
